@@ -225,7 +225,15 @@ struct G {
     uint32_t initial_labels = uint32_t(1 + r.below(4));
     for (uint32_t i = 0; i < initial_labels; i++) new_label();
     while (p.steps.size() < opt.steps) {
-      if (r.chance(1, 4)) misc_step();
+      if (r.chance(1, 4)) {
+        size_t before = p.steps.size();
+        misc_step();
+        // AArch64 code and literal references need 4-byte aligned positions: realign after data of arbitrary size.
+        if (t == Target::kA64 && p.steps.size() > before) {
+          StepKind k = p.steps.back().kind;
+          if (k == StepKind::kEmbed || k == StepKind::kEmbedArray || k == StepKind::kEmbedConstPool || k == StepKind::kEmbedLabelDelta || k == StepKind::kSection) { Step a; a.kind = StepKind::kAlign; a.a = 2; a.b = 4; p.steps.push_back(a); }
+        }
+      }
       else if (t == Target::kA64) a64_step();
       else x86_step();
     }
